@@ -55,7 +55,10 @@ func (t *topology) Update(primaryNode string, secondaries ...string) {
 		var found bool
 		for _, oldEndpoint := range t.endpoints {
 			if oldEndpoint.url == url {
-				// Take over the old endpoint
+				// Take over the old endpoint. A former primary that is listed
+				// as a secondary now has to be treated as one by the read
+				// preferences.
+				oldEndpoint.nodeType = secondary
 				newEndpoints = append(newEndpoints, oldEndpoint)
 				found = true
 				break
